@@ -1,6 +1,5 @@
 import Gimli.Lemmas.Abbrev
 import Gimli.Lemmas.LebU16
-import Gimli.Lemmas.LebSigned
 import Gimli.Lemmas.AttrRoundtrip
 import Gimli.Spec.AbbrevTable
 /-! Helper lemmas for C02, part 8: parsing the encoding of an abbreviation table
